@@ -378,6 +378,30 @@ def _task_swap(args):
                              "case": {"client": kind, "swap": True, "initial": initial, "seg": seg}})
             elif sample is None:
                 sample = {"client": kind, "callback_swaps": 3, "delivered_per_callback": [len(got[k]) for k in "012"]}
+    # a second, redundant connect() on a client that is connected (documented as safe): the stream goes on undisturbed
+    stream = b"".join(b"".join(b) for b in bursts)
+    exp_all = [e for b in exp for e in b]
+    for seg in ("whole", "bytes"):
+        script = [it_connect]
+        for i, b in enumerate(bursts):
+            data = b"".join(b)
+            script += [vloop.it_feed(data, 0)] if seg == "whole" else [vloop.it_feed(data[j:j + 1], 0) for j in range(len(data))]
+            script.append(vloop.sp_connect)
+        sess = vloop.Session(kind=kind, script=script)
+        o = sess.run()
+        stats["runs"] += 1
+        stats["nontrivial"] += 1
+        gotv = [v for _, v in o.received]
+        res = None
+        if o.end_reason != "quiescent" or not o.flags.get("script_done"):
+            res = ("hang", {"end": o.end_reason}, f"execution ended with {o.end_reason} {o.flags}")
+        elif gotv != exp_all or len(sess.gw.conns) != 1:
+            res = ("messages_lost_tail" if len(gotv) < len(exp_all) else "connection_disturbed", {"mechanism": "redundant_connect"},
+                   f"{len(exp_all)} messages sent on one connection, {len(gotv)} delivered, {len(sess.gw.conns)} connection(s) opened, status {[n for _, n in o.status]}")
+        if res:
+            vios.append({"kind": res[0], "facts": dict(res[1], client=kind), "signature": f"reconnect2:{res[0]}:{kind}",
+                         "detail": f"[{kind} connect() called again after every burst while connected; bursts fed {seg}] {res[2]}",
+                         "case": {"client": kind, "swap": True, "initial": "redundant_connect", "seg": seg}})
     stats["outcomes"] = len(stats["outcomes"])
     return stats, vios, sample
 
